@@ -530,10 +530,10 @@ def bi_len(st, args, kw):
 def bi_set(st, args, kw):
     if not args:
         # element type comes from the declared local type; default to the function's hint
-        hint = st.ghost.get('$empty_set_type')
-        if hint is None:
-            raise Undecided('set() needs a declared element type (contract locals=)')
-        return B.new_set(st, [], hint)
+        if st.spec:
+            raise Undecided('set() in spec')
+        ref = st.new_ref('set')
+        return Val(T.Ty('set', (T.Ty('unknown'),)), ref)
     v = args[0]
     if v.t.kind in ('list', 'seq'):
         s, et = B.seq_of(st, v)
@@ -850,6 +850,8 @@ def _list_insert(st, recv, args, kw):
 
 @method_model('set', 'add')
 def _set_add(st, recv, args, kw):
+    if recv.t.args[0].kind == 'unknown':
+        st.init_empty(recv, T.TSet(args[0].t))
     et = recv.t.args[0]
     E.check_or_raise(st, recv.z != 0, 'AttributeError')
     E.check_frame_contents(st, recv.z)
